@@ -76,7 +76,7 @@ def build_wcs(c):
     nr, nc = c["shape"]
     s = c["scale"]
     cp1, cp2 = c["crpix_frac"][0] * nc, c["crpix_frac"][1] * nr
-    # every pixel must have a sky position: keep the whole image within 60 deg of the reference point (SIN, TAN and
+    # every pixel must have a sky position: keep the whole image within a projection-plane radius of 50 deg of the reference point (SIN, TAN and
     # friends are undefined at/after 90 deg), by pulling an off-image reference pixel towards the image if needed
     far = max(math.hypot(x - cp1, y - cp2) for x in (1, nc) for y in (1, nr))
     lim = 50.0 / s       # (projection-plane radius: SIN ends at 180/pi = 57.3 deg)
